@@ -29,82 +29,199 @@ from .. import sandbox_util as su
 
 PID = "C18"
 
-# (name, kind, unsafe_callable, alters_data)
+# name -> (kind, family); kind decides how the template reaches it ("func": by name, "method":
+# as obj.<name>, "async": by name, async mode only); family "basic" is swept densely in the
+# quick tier, "wrapped" (decorated / wrapping / delegating callables) with fewer alias shapes
 CALLABLES = [
-    ("run", "func", False, False),
-    ("delete", "func", True, False),
-    ("save", "func", False, True),
-    ("denied", "func", False, False),        # unsafe only for the deny-by-name policy
-    ("destroy", "method", True, False),
-    ("fine", "method", False, False),
-    ("inst", "instance", False, True),
-    ("adelete", "async", True, False),
-    ("arun", "async", False, False),
+    ("run", "func", "basic"),              # plain function
+    ("delete", "func", "basic"),           # @unsafe
+    ("save", "func", "basic"),             # alters_data = True
+    ("denied", "func", "basic"),           # unsafe only for the deny-by-name policy
+    ("destroy", "method", "basic"),        # @unsafe method
+    ("fine", "method", "basic"),
+    ("inst", "func", "basic"),             # callable instance, alters_data on the class
+    ("adelete", "async", "basic"),
+    ("arun", "async", "basic"),
+    # functools.wraps wrappers: mark on the wrapper, on the wrapped function, on both, nowhere
+    ("w_outer_unsafe", "func", "wrapped"),
+    ("w_outer_alters", "func", "wrapped"),
+    ("w_inner_unsafe", "func", "wrapped"),
+    ("w_both", "func", "wrapped"),
+    ("w_plain", "func", "wrapped"),
+    # functools.lru_cache
+    ("lru_outer_unsafe", "func", "wrapped"),
+    ("lru_outer_alters", "func", "wrapped"),
+    ("lru_inner_unsafe", "func", "wrapped"),
+    ("lru_plain", "func", "wrapped"),
+    # functools.partial
+    ("part_outer_unsafe", "func", "wrapped"),
+    ("part_plain", "func", "wrapped"),
+    # bound methods of decorated functions
+    ("wm_outer_unsafe", "method", "wrapped"),
+    ("wm_plain", "method", "wrapped"),
+    # callable objects and classes
+    ("cobj_inst_unsafe", "func", "wrapped"),   # mark on the instance only
+    ("cobj_plain", "func", "wrapped"),
+    ("cls_unsafe", "func", "wrapped"),         # class called as a constructor, mark on the class
+    ("cls_plain", "func", "wrapped"),
+    ("aw_outer_unsafe", "async", "wrapped"),   # async wrapper marked on the outside
+    ("aw_plain", "async", "wrapped"),
 ]
+NAMES_ = [c[0] for c in CALLABLES]
+KIND = {c[0]: c[1] for c in CALLABLES}
+FAMILY = {c[0]: c[2] for c in CALLABLES}
+# objects the application puts on its deny list under the "denyobj" policy (by identity)
+# (bound methods are created afresh by every attribute access, so they cannot be listed by identity)
+DENY_LIST = {"run", "w_plain", "lru_plain", "part_plain", "cobj_plain", "cls_plain", "aw_plain"}
 
 
 def make_callables(rec):
-    """Recording callables; the marks are exactly what is reported to the spec."""
+    """Recording callables.  What is reported to the specification (header) is read off the
+    very object the template calls: its unsafe_callable / alters_data attributes, its name,
+    whether it is on the deny list."""
+    import functools
+
     from jinja2.sandbox import unsafe
 
-    out, header = {}, []
+    out = {}
+    index = {n: i for i, n in enumerate(NAMES_, 1)}
 
     def ran(i):
         rec.emit("ran", v=i)
 
-    def mk_func(i, name):
-        def f(*a, **kw):
-            ran(i)
-            return f"R{i}"
+    def body(name, is_async=False):
+        i = index[name]
+        if is_async:
+            async def f(*a, **kw):
+                ran(i)
+                return f"R{i}"
+        else:
+            def f(*a, **kw):
+                ran(i)
+                return f"R{i}"
         f.__name__ = name
         return f
 
-    def mk_async(i, name):
-        async def f(*a, **kw):
-            ran(i)
-            return f"R{i}"
+    def silent(name):
+        def f(*a, **kw):
+            return f"R{index[name]}"
         f.__name__ = name
+        return f
+
+    def wrap(name, inner, is_async=False):
+        """a functools.wraps decorator whose wrapper records the run"""
+        i = index[name]
+        if is_async:
+            @functools.wraps(inner)
+            async def wrapper(*a, **kw):
+                ran(i)
+                return await inner(*a, **kw)
+        else:
+            @functools.wraps(inner)
+            def wrapper(*a, **kw):
+                ran(i)
+                return inner(*a, **kw)
+        return wrapper
+
+    def alters(f):
+        f.alters_data = True
         return f
 
     class Obj:
         pass
 
+    # -- basic family
+    out["run"] = body("run")
+    out["delete"] = unsafe(body("delete"))
+    out["save"] = alters(body("save"))
+    out["denied"] = body("denied")
+    for name, mark in (("destroy", unsafe), ("fine", lambda f: f)):
+        f = mark(body(name))
+
+        def meth(self, *a, _f=f, **kw):
+            return _f(*a, **kw)
+        meth.__name__ = name
+        for k, v in vars(f).items():
+            setattr(meth, k, v)
+        setattr(Obj, name, meth)
+
+    class Inst:
+        alters_data = True
+
+        def __call__(self, *a, **kw):
+            ran(index["inst"])
+            return "R"
+    out["inst"] = Inst()
+    out["adelete"] = unsafe(body("adelete", True))
+    out["arun"] = body("arun", True)
+    # -- wrapped family
+    out["w_outer_unsafe"] = unsafe(wrap("w_outer_unsafe", silent("w_outer_unsafe")))
+    out["w_outer_alters"] = alters(wrap("w_outer_alters", silent("w_outer_alters")))
+    out["w_inner_unsafe"] = wrap("w_inner_unsafe", unsafe(silent("w_inner_unsafe")))
+    out["w_both"] = unsafe(wrap("w_both", unsafe(silent("w_both"))))
+    out["w_plain"] = wrap("w_plain", silent("w_plain"))
+    out["lru_outer_unsafe"] = unsafe(functools.lru_cache(maxsize=None)(body("lru_outer_unsafe")))
+    out["lru_outer_alters"] = alters(functools.lru_cache(maxsize=None)(body("lru_outer_alters")))
+    out["lru_inner_unsafe"] = functools.lru_cache(maxsize=None)(unsafe(body("lru_inner_unsafe")))
+    out["lru_plain"] = functools.lru_cache(maxsize=None)(body("lru_plain"))
+    out["part_outer_unsafe"] = unsafe(functools.partial(body("part_outer_unsafe")))
+    out["part_plain"] = functools.partial(body("part_plain"))
+    setattr(Obj, "wm_outer_unsafe", unsafe(wrap("wm_outer_unsafe", lambda self, *a, **kw: "R")))
+    setattr(Obj, "wm_plain", wrap("wm_plain", lambda self, *a, **kw: "R"))
+
+    class CObj:
+        def __init__(self, name):
+            self._name = name
+
+        def __call__(self, *a, **kw):
+            ran(index[self._name])
+            return "R"
+    out["cobj_inst_unsafe"] = CObj("cobj_inst_unsafe")
+    out["cobj_inst_unsafe"].unsafe_callable = True
+    out["cobj_plain"] = CObj("cobj_plain")
+
+    def mk_class(name, marked):
+        class K:
+            if marked:
+                unsafe_callable = True
+
+            def __init__(self, *a, **kw):
+                ran(index[name])
+
+            def __str__(self):
+                return "K"
+        K.__name__ = name
+        return K
+    out["cls_unsafe"] = mk_class("cls_unsafe", True)
+    out["cls_plain"] = mk_class("cls_plain", False)
+    out["aw_outer_unsafe"] = unsafe(wrap("aw_outer_unsafe", body_silent_async(), True))
+    out["aw_plain"] = wrap("aw_plain", body_silent_async(), True)
+
     obj = Obj()
-    for i, (name, kind, uns, alt) in enumerate(CALLABLES, 1):
-        header.append({"unsafe": uns, "alters": alt, "name": name})
-        if kind in ("func", "async"):
-            f = (mk_func if kind == "func" else mk_async)(i, name)
-            if uns:
-                f = unsafe(f)
-            if alt:
-                f.alters_data = True
-            f._jv_callable_index = i
-            out[name] = f
-        elif kind == "method":
-            f = mk_func(i, name)
-            if uns:
-                f = unsafe(f)
-            f._jv_callable_index = i
-
-            def meth(self, *a, _f=f, **kw):
-                return _f(*a, **kw)
-            meth.__name__ = name
-            for k, v in vars(f).items():
-                setattr(meth, k, v)
-            setattr(Obj, name, meth)
-            out[name] = None        # reached as obj.<name>
-        else:
-            class Inst:
-                alters_data = alt
-                unsafe_callable = uns
-                _jv_callable_index = i
-
-                def __call__(self, *a, _i=i, **kw):
-                    ran(_i)
-                    return f"R{_i}"
-            out[name] = Inst()
     out["obj"] = obj
-    return out, header
+    targets, header, deny = {}, [], []
+    for name in NAMES_:
+        t = getattr(obj, name) if KIND[name] == "method" else out[name]
+        targets[name] = t
+        # the harness' own index is attached to the called object only, after any decoration
+        # (functools.wraps copied the wrapped function's attributes when the wrapper was built)
+        try:
+            t._jv_callable_index = index[name]
+        except AttributeError:          # bound methods: attach to the function they bind
+            t.__func__._jv_callable_index = index[name]
+        header.append({"unsafe": bool(getattr(t, "unsafe_callable", False)),
+                       "alters": bool(getattr(t, "alters_data", False)),
+                       "name": str(getattr(t, "__name__", type(t).__name__)),
+                       "denied": name in DENY_LIST})
+        if name in DENY_LIST and KIND[name] != "method":
+            deny.append(t)
+    return out, targets, header, deny
+
+
+def body_silent_async():
+    async def f(*a, **kw):
+        return "R"
+    return f
 
 
 # ---------------------------------------------------------------------------
@@ -177,26 +294,34 @@ def gen_cases(tier, seed):
     cases = []
     alias_seqs = [()] + [(a,) for a in ALIASES]
     alias2 = [(a, b) for a in ALIASES for b in ALIASES]
-    for name, kind, _, _ in CALLABLES:
+    for name, kind, family in CALLABLES:
         is_async_callable = kind == "async"
         srcs = sources(name, kind)
         for site in SITES:
-            if quick:
+            if quick and family == "wrapped":
+                combos = [(rnd.choice(list(srcs)), rnd.choice(alias_seqs[:4]))]
+            elif quick:
                 combos = [(rnd.choice(list(srcs)), ())] + \
-                         [(rnd.choice(list(srcs)), a) for a in rnd.sample(alias_seqs[1:], 3)] + \
+                         [(rnd.choice(list(srcs)), a) for a in rnd.sample(alias_seqs[1:], 2)] + \
                          [(rnd.choice(list(srcs)), rnd.choice(alias2))]
             else:
-                # every alias sequence of length <= 1 with every source; sequences of length 2 are
-                # all used, each with a seeded sample of two sources
-                combos = [(s, a) for s in srcs for a in alias_seqs] + \
-                         [(s, a) for a in alias2 for s in rnd.sample(list(srcs), 2)]
+                # basic family: every alias sequence of length <= 1 with every source, every sequence
+                # of length 2 with one seeded source; wrapped family: length <= 1 with two sources
+                if family == "basic":
+                    combos = [(s, a) for s in srcs for a in alias_seqs] + \
+                             [(rnd.choice(list(srcs)), a) for a in alias2]
+                else:
+                    combos = [(s, a) for a in alias_seqs for s in rnd.sample(list(srcs), 2)]
             for s, a in combos:
                 if not a and srcs[s].startswith("(") and site.startswith("call_block"):
                     continue     # `{% call (expr)() %}` is read as a caller signature: not a call of expr
                 modes = [True] if is_async_callable else ([False, True] if (not quick or rnd.random() < 0.2) else [False])
                 for is_async in modes:
-                    pols = ["default", "denyname"] if (not quick or name == "denied" or rnd.random() < 0.15) \
-                        else ["default"]
+                    pols = ["default"]
+                    if not quick or name == "denied" or rnd.random() < 0.15:
+                        pols.append("denyname")
+                    if (name in DENY_LIST and (not quick or not a or rnd.random() < 0.3)) or rnd.random() < 0.05:
+                        pols.append("denyobj")
                     for pol in pols:
                         cases.append((name, kind, s, a, site, is_async, pol))
     return cases
@@ -206,10 +331,12 @@ def run_case(case):
     core.use_repo()
     name, kind, s, aliases, site, is_async, policy = case
     rec = su.Recorder()
-    env = su.make_env(rec, policy=policy, enable_async=is_async)
-    objs, header = make_callables(rec)
-    target = getattr(objs["obj"], name) if kind == "method" else objs[name]
-    ctx = {k: v for k, v in objs.items() if v is not None}
+    deny = []
+    env = su.make_env(rec, policy=policy, deny=deny, enable_async=is_async)
+    objs, targets, header, denied = make_callables(rec)
+    deny.extend(denied)
+    target = targets[name]
+    ctx = dict(objs)
     ctx["fd"] = {"k": target, "inner": {"k2": target}}
     ctx["fl"] = [target]
     src = build(sources(name, kind)[s], aliases, site)
@@ -223,7 +350,8 @@ def run_case(case):
 def design_model(ck):
     quick = ck.tier == "quick"
     r = su.gate_model(PID, "gate_model",
-                      [su.conf_tla("sandbox", "abstract", "default"), su.conf_tla("sandbox", "abstract", "denyname")],
+                      [su.conf_tla("sandbox", "abstract", "default"), su.conf_tla("sandbox", "abstract", "denyname"),
+                       su.conf_tla("sandbox", "abstract", "denyobj")],
                       2 if quick else 3, ["plain"], [],
                       ["TypeOK", "C18_UnsafeNeverRuns", "C18_GrantedAreSafe"], coverage=quick, timeout=3000)
     ck.add_tlc(r, "SandboxGate: CallGate before Run, default and deny-by-name policy")
@@ -260,7 +388,7 @@ def run(ck):
         name, kind, s, aliases, site, is_async, policy = case
         ck.violation({"kind": "call", "case": list(case), "src": src, "events": t["ev"], "stuck": stuck, "output": text},
                      f"sandbox ({'async' if is_async else 'sync'}, policy {policy}): `{src}` with callable {name} "
-                     f"({kind}, marks {t['callables'][[c[0] for c in CALLABLES].index(name)]}): event {ev['e']}"
+                     f"({kind}, marks {t['callables'][NAMES_.index(name)]}): event {ev['e']}"
                      f"(callable={ev.get('v')}, ok={ev.get('ok')}, s={ev.get('s')!r}) is not allowed by SandboxGate "
                      f"(an unsafe callable ran, or the refusal did not raise SecurityError); events "
                      f"{[(e['e'], e['v'], e['ok'], e['s']) for e in t['ev']]}",
@@ -276,7 +404,8 @@ def run(ck):
     bg.join()
     ck.exhaustive = False
     ck.extra["exhaustive_note"] = ("thorough: every callable x call site x alias sequence of length <= 2 x sync/async x "
-                                   "policy (every source for length <= 1, two sampled sources for length 2); quick: a "
+                                   "policy (basic callables: every source for length <= 1, one sampled source for length 2; "
+                                   "wrapped / decorated callables: length <= 1, two sampled sources); quick: a "
                                    "seeded sample of sources / aliases per callable x site")
     ck.extra["excluded_shapes"] = [
         "callables invoked by Python code the application supplies (custom filters / tests calling their arguments)",
